@@ -36,6 +36,17 @@ pub struct RunResult {
     pub known_hits: Vec<String>,
 }
 
+thread_local! {
+    /// lean mode (Miri): execute the steps and their own oracles, skip the per-step packs
+    static LEAN: std::cell::Cell<bool> = const { std::cell::Cell::new(false) };
+}
+pub fn set_lean(on: bool) {
+    LEAN.with(|l| l.set(on))
+}
+fn lean() -> bool {
+    LEAN.with(|l| l.get())
+}
+
 pub fn run_script(script: &Script, known: Arc<Vec<Finding>>) -> RunResult {
     crate::with_ptype!(script.cfg.ptype, run_typed(script, known))
 }
@@ -225,8 +236,26 @@ fn run_typed<P: SimPrefix>(script: &Script, known: Arc<Vec<Finding>>) -> RunResu
             // may only grow the arena once the free list is used up
             if matches!(st, Step::Insert { .. } | Step::Entry { .. } | Step::SInsert { .. }) {
                 for c in out.touched.iter().copied() {
+                    // (one insertion needs at most two nodes: with >= 2 released slots it cannot need
+                    // a fresh one; phrased on the state before the step so that implementations that
+                    // grow the arena in chunks are not flagged)
                     if after[c].nodes.len() > before[c].nodes.len() {
-                        chk!(ctx, "C16", after[c].free.is_empty(), "allocated-while-free-slots", "step {:?} grew the arena from {} to {} slots although {} released slot(s) are still on the free list", st, before[c].nodes.len(), after[c].nodes.len(), after[c].free.len());
+                        chk!(ctx, "C16", before[c].free.len() < 2, "allocated-while-free-slots", "step {:?} grew the arena from {} to {} slots although {} released slots were on the free list", st, before[c].nodes.len(), after[c].nodes.len(), before[c].free.len());
+                    }
+                }
+            }
+            // C15: remove_keep_tree and value-only operations never change the shape
+            {
+                let value_only = matches!(st, Step::RemoveKeepTree { .. } | Step::SRemoveKeepTree { .. } | Step::GetMutWrite { .. } | Step::LpmMutWrite { .. } | Step::IterMutWrite { .. });
+                for c in out.touched.iter().copied() {
+                    // an Entry step that created no new key only touched values (or took one out)
+                    let entry_no_insert = matches!(st, Step::Entry { .. }) && after[c].ents.iter().all(|e| before[c].ents.iter().any(|b| b.key == e.key));
+                    if value_only || entry_no_insert {
+                        let shape = |t: &crate::truth::Truth| t.nodes.iter().map(|n| (n.raw.key(), n.left, n.right)).collect::<Vec<_>>();
+                        chk!(ctx, "C15", shape(&before[c]) == shape(&after[c]), format!("shape-changed:{}", &step_kind(st)[5..]), "step {:?} must not change the tree shape, but it did: {} nodes reachable before, {} after", st, before[c].n_reachable, after[c].n_reachable);
+                        if before[c].n_reachable > before[c].ents.len() + 1 {
+                            ctx.rare("probe.shape preserved by a value-only operation on a tree with value-less nodes");
+                        }
                     }
                 }
             }
@@ -248,7 +277,9 @@ fn run_typed<P: SimPrefix>(script: &Script, known: Arc<Vec<Finding>>) -> RunResu
             for i in 0..w.sets.len() {
                 w.sets[i].hw = w.sets[i].hw.max(w.truths[nm + i].n_reachable);
             }
-            packs(&mut ctx, &mut w)?;
+            if !lean() {
+                packs(&mut ctx, &mut w)?;
+            }
             steps_done = si + 1;
         }
         Ok(())
